@@ -383,6 +383,44 @@ theorem c09_whfast_variational_keep_loses_com_drift_as_found :
 /-- the clock laws are satisfiable (non-vacuity of `VClock`) -/
 example : VClock clockSem := clockK
 
+/-- **A successful rescaling of variational particles (`reb_simulation_rescale_var` at the end of a
+    step) happens only in a synchronised state, and — repaired source, `rfix = true` — is always
+    followed by a rebuild of `p_jh`**: the recalculate flag is set whatever safe_mode says, so the
+    next step under *any* configuration `c'` (safe_mode / keep_unsynchronized may have been changed
+    in between) contains `from_inertial` and leaves no coordinate above 1e100 in `p_jh` or in the
+    particles.  If the rescaling does not happen although a coordinate is too large, the integrator
+    was unsynchronised (keep_unsynchronized) and neither flags nor magnitudes changed.
+    (Seeded change C09-j — rescale `p_jh[1..]` in place instead of setting the flag — breaks the
+    flag half of this in the replay.) -/
+theorem c09_whfast_variational_rescale_forces_recalculation (c c' : Config) (f : Flags) (m : VMag) :
+    let r := vOpOpsR true c f m (.step : Op Unit)
+    (r.2.2.2 = true →
+      r.2.1.isSync = true ∧ r.2.1.recalc = true ∧ Prim.fromInertial ∈ (vStepCore c' r.2.1).1 ∧
+      vMagStep c' r.2.1 r.2.2.1 = ⟨false, false⟩) ∧
+    (r.2.2.2 = false → (vMagStep c f m).bigP = true → r.2.1.isSync = false ∧ r.2.1 = (vStepOps c f).2) := by
+  obtain ⟨isSync, recalc, allocated⟩ := f
+  obtain ⟨bp, bj⟩ := m
+  cases isSync <;> cases recalc <;> cases allocated <;> cases bp <;> cases bj <;>
+    cases hs : c.safe <;> cases hk : c.keep <;> cases hp : c.p1fix <;> cases hv : c.vfix <;>
+    cases hs' : c'.safe <;> cases hp' : c'.p1fix <;>
+    simp [vOpOpsR, vRescaleF, vMagStep, vStepOps, vStepCore, vPart1Ops, vPart2Ops, vSyncOps, initF, hs, hk, hp, hv, hs', hp']
+
+/-- **The source as found rescales the same magnitude twice when safe_mode is switched off right
+    after a rescaling** (finding C09:rescale-var-stale-pjh-after-safe-mode-off; `rfix = false`): a
+    step in safe mode with variational coordinates above 1e100 rescales the particles but sets no
+    recalculate flag ("safe mode recalculates anyway"); the user then sets `safe_mode = 0`; the next
+    step drifts the stale, un-rescaled `p_jh`, the particles come out above 1e100 again and a second
+    rescaling adds the same logarithm to `lrescale` once more.  With the flag set unconditionally
+    (`rfix = true`) there is exactly one. -/
+theorem c09_whfast_variational_rescale_twice_after_safe_mode_off_as_found :
+    let cfg := fun (safe : Bool) => (⟨.jacobi, 0, 0, false, safe, false, false, true, true⟩ : Config)
+    let count := fun (rfix : Bool) =>
+      let r1 := vOpOpsR rfix (cfg true) ⟨true, false, false⟩ ⟨true, true⟩ (.step : Op Unit)
+      let r2 := vOpOpsR rfix (cfg false) r1.2.1 r1.2.2.1 (.step : Op Unit)
+      (if r1.2.2.2 then 1 else 0) + (if r2.2.2.2 then 1 else 0)
+    count false = 2 ∧ count true = 1 := by
+  decide
+
 end variational
 
 /-! ### MERCURIUS (kick first) and EOS (outer scheme) -/
